@@ -72,6 +72,19 @@ void onTransfer(int mode, char* ptr, std::streamsize count) {
 }
 
 const float kFloats[] = {0.0f, 1.0f, -1.0f, 0.5f, 2.25f, 100.125f, -3.75f, 0.0625f};
+// fspecial=1 cases: single floats come from the boundary palette instead (FLT_MAX, its neighbour, the infinities, a NaN,
+// -0, a denormal): the values a float comparison in a Sync body distinguishes (BSLightingShaderProperty::Sync)
+bool g_fspecial = false;
+float pick_float() {
+	if (!g_fspecial)
+		return kFloats[g_gen.below(8)];
+	static const uint32_t bits[] = {0x7F7FFFFFu, 0x7F7FFFFEu, 0x7F800000u, 0xFF800000u, 0x7FC00000u, 0x80000000u, 0x00000001u, 0xFF7FFFFFu,
+									0x3F800000u, 0x00000000u, 0xFFC00001u, 0x7F7FFFFFu};
+	uint32_t b = bits[g_gen.below(12)];
+	float f;
+	std::memcpy(&f, &b, 4);
+	return f;
+}
 
 void onTyped(int mode, void* ptr, size_t size, int kind) {
 	if (!g_generate || mode != 0)
@@ -132,7 +145,7 @@ void onTyped(int mode, void* ptr, size_t size, int kind) {
 	}
 	else if (kind == 4) {
 		if (size == 4) {
-			float f = kFloats[g_gen.below(8)];
+			float f = pick_float();
 			std::memcpy(p, &f, 4);
 		}
 		else if (size == 8) {
@@ -252,10 +265,12 @@ std::string do_blk(const Case& c) {
 	g_b0.clear();
 	g_b0ok = true;
 	g_hi16 = dynamic_cast<NiGeometryData*>(obj.get()) != nullptr;
+	g_fspecial = c.geti("fspecial") == 1;
 	g_generate = true;
 	obj->Get(gin);
 	g_generate = false;
 	g_hi16 = false;
+	g_fspecial = false;
 	std::string b0 = g_b0;
 	bool b0ok = g_b0ok;
 	std::vector<long> gtrace = g_trace;
